@@ -205,7 +205,7 @@ let () =
   (try while true do
     let line = input_line stdin in
     let toks = List.filter (fun s -> s <> "") (String.split_on_char ' ' line) in
-    (match toks with
+    (try (match toks with
     | ["QUIT"] -> raise Exit
     | "CFG" :: mi :: ms :: lim :: now :: fl :: se :: ct :: co :: _ ->
       cfg := { c_max_items = nat_of_int (int_of_string mi); c_max_item_size = nat_of_int (int_of_string ms);
@@ -234,6 +234,9 @@ let () =
     | ["B2I"; h] ->
       (match bytes_to_int (bytes_of_hex h) with
        | Some z -> print_string ("= ok " ^ str_of_z z ^ "\n") | None -> print_string "= err ValueError\n")
-    | _ -> print_string ("= error unknown command: " ^ line ^ "\n"));
+    | _ -> print_string ("= error unknown command: " ^ line ^ "\n"))
+     with Exit -> raise Exit | End_of_file -> raise End_of_file
+        | Stack_overflow -> print_string "= crash Stack_overflow\n"
+        | e -> print_string ("= crash " ^ Printexc.to_string e ^ "\n"));
     flush stdout
   done with Exit | End_of_file -> ())
